@@ -1,7 +1,9 @@
 """C05 — group-specific blocks: group indicators x effect columns; lme4 intercept / coding rules."""
+import warnings
 from fractions import Fraction
 
 import numpy as np
+import pandas as pd
 
 import designs
 from common import Result, ask, rng_for, known_findings
@@ -9,6 +11,16 @@ from common import Result, ask, rng_for, known_findings
 ASSUMPTIONS = [
     "block structure (Spec.C05.check) is evaluated by the Lean driver on the block, the effect "
     "columns and the group labels observed from the real objects",
+    "prediction stage: the same block structure (Spec.C05.checkNew = blockRowOk with the training "
+    "groups of the term as slots, plus the one appended slot for rows whose cell was not seen in "
+    "training) is evaluated by the Lean driver on the per-term blocks read through new[name] (the "
+    "derived object's own slices) of group.evaluate_new_data(new frame), under 'silent' / 'warning' "
+    "('error' too when nothing is unseen); the cell of every row is computed by Lean from the new "
+    "frame, e's values on the new frame are term.expr.eval_new_data(new frame) (C06 is about those); "
+    "new frames = training rows with x / z moved to midpoints of training values (non-integer effect "
+    "values) and grouping values replaced by one or two unseen labels in the variables of the "
+    "earliest grouping factor only, the latest only, all, or a random subset; terms of the class D30 "
+    "(sum-coded grouping factor) are not judged in this stage (counted)",
     "the coding rule of the effects is judged by exact rational rank / column-space comparison with "
     "the complete-indicator coding on fully crossed data (a test, not a theorem: the bridge from "
     "the partition of C03 to rank is mathematics outside Lean)",
@@ -23,7 +35,11 @@ GROUPINGS = ["g", "h", "g:h", "C(k)", "g + h", "g/h", "cu", "co", "k", "co:h", "
 SUM_GROUPINGS = ["S(g)", "C(h, Sum)", "g:S(h)"]
 CORPUS = ["y ~ (f:h | g)", "y ~ (0 + f + h | g)", "y ~ (f | g + h) - (1 | h)", "y ~ (x | g:h)",
           "y ~ (1 | g/h)", "y ~ (0 + f | g)", "y ~ (f + x | co)", "y ~ x + (x | k)",
-          "y ~ (1 | S(g))", "y ~ (x | C(h, Sum))", "y ~ (1 | T(g, 'v'))"]
+          "y ~ (1 | S(g))", "y ~ (x | C(h, Sum))", "y ~ (1 | T(g, 'v'))",
+          # several grouping factors, effects with non-integer values (prediction stage: slots and
+          # slices of later terms when an earlier / later / every factor gets an unseen group)
+          "y ~ (z | g) + (0 + z | k) + (1 | h)", "y ~ (0 + h | g) + (1 | k)",
+          "y ~ (center(x) | cu) + (z | g:h)", "y ~ (x + z | C(k)) + (1 | f) + (z | co)"]
 
 
 def rank(rows):
@@ -183,12 +199,89 @@ def coding_rule_stage(res, tier, seed, open_ids):
                                             f"rank {rz}, reference space rank {rr}, joint rank {rj}"})
 
 
+GROUP_VARS = ["f", "g", "h", "cu", "co", "k"]
+
+
+def new_frames(r, df, dm, n_new):
+    """-> [(new frame, mode, {var: [rows]})]: rows of the training frame; numeric columns moved to
+    midpoints of training values (stay inside the training range, mostly non-integer); grouping
+    values replaced by unseen labels (one or two distinct ones per variable) in the variables of the
+    earliest grouping factor only, the latest only, all of them, a random subset, or none"""
+    factors = []                                  # variables of each grouping factor, in term order
+    for t in dm.group.terms.values():
+        vs = sorted(v for v in t.factor.var_names if v in GROUP_VARS)
+        if vs and vs not in factors:
+            factors.append(vs)
+    allv = sorted({v for vs in factors for v in vs})
+    out = []
+    for _ in range(n_new):
+        idx = [r.randrange(len(df)) for _ in range(r.randrange(3, 9))]
+        nd = df.iloc[idx].reset_index(drop=True).copy()
+        for col in ("x", "z"):
+            if r.random() < 0.7:
+                nd[col] = [(float(a) + float(df[col].iloc[r.randrange(len(df))])) / 2 for a in nd[col]]
+        pattern = r.choice(["first", "last", "all", "subset", "subset", "none"]) if allv else "none"
+        chosen = {"first": factors[0] if factors else [], "last": factors[-1] if factors else [],
+                  "all": allv, "none": [],
+                  "subset": [v for v in allv if r.random() < 0.5]}[pattern]
+        placed = {}
+        for v in chosen:
+            rows = sorted(r.sample(range(len(nd)), r.randrange(1, len(nd) // 2 + 1)))
+            labels = [99, 77] if v == "k" else ["NEW_" + v, "NEW2_" + v]
+            if v != "k":
+                nd[v] = nd[v].astype(object)
+            two = r.random() < 0.3
+            for i, k in enumerate(rows):
+                nd.loc[k, v] = labels[i % 2] if two else labels[0]
+            placed[v] = rows
+        mode = r.choice(["silent", "warning"] if placed else ["silent", "warning", "error"])
+        out.append((designs.scramble_index(r, nd), mode, placed))
+    return out
+
+
+def prediction_requests(r, formula, df, dm, req_names, n_new, res):
+    """-> [(case extension, c05_new_spec request, term names)] for the objects returned by
+    group.evaluate_new_data on generated new frames"""
+    import formulae
+    from formulae.terms import Intercept
+    out = []
+    for j, (nd, mode, placed) in enumerate(new_frames(r, df, dm, n_new)):
+        old = formulae.config["EVAL_UNSEEN_CATEGORIES"]
+        formulae.config["EVAL_UNSEEN_CATEGORIES"] = mode
+        try:
+            with warnings.catch_warnings():
+                warnings.simplefilter("ignore")
+                new = dm.group.evaluate_new_data(nd)
+                terms = []
+                for name, t in dm.group.terms.items():
+                    x = np.ones(len(nd)) if isinstance(t.expr, Intercept) else t.expr.eval_new_data(nd)
+                    terms.append({"name": name, "factor": [str(c.name) for c in t.factor.components],
+                                  "groups": list(t.groups), "x": designs.mat(x),
+                                  "z": designs.mat(new[name])})
+                slices = [[k, sl.start, sl.stop] for k, sl in new.slices.items()]
+        except Exception as e:  # noqa  (whether a new frame may be refused is C10's subject)
+            res.count("prediction_error:" + type(e).__name__)
+            continue
+        finally:
+            formulae.config["EVAL_UNSEEN_CATEGORIES"] = old
+        res.count("prediction_objects")
+        used = sorted(v for v in dm.model.var_names if v in nd.columns)
+        out.append(({"stage": "prediction", "new": j, "mode": mode,
+                     "unseen": {v: rows for v, rows in placed.items()}},
+                    {"op": "c05_new_spec", "_rows": {v: nd[v].tolist() for v in used},
+                     "_slices": slices, "formula": formula, "frame": designs.frame_json(nd),
+                     "names": req_names, "terms": terms}))
+    return out
+
+
 def explore(tier, seed, res=None, replay=None):
     from formulae.terms import Intercept
     res = res or Result()
     res.rule = ("effect expressions x grouping expressions x generated frames; non-trivial = a "
                 "group-specific term with a non-intercept effect or an interaction grouping; distinct "
-                "by formula and frame seed")
+                "by formula and frame seed; each design followed by 2 (thorough: 3) new frames with "
+                "unseen groups in the earliest / latest / all / some grouping factors and non-integer "
+                "effect values, block structure judged on the derived objects' per-term blocks")
     n_cases = 400 if tier == "quick" else 15000
     cases = []
     if replay is not None:
@@ -199,6 +292,7 @@ def explore(tier, seed, res=None, replay=None):
         for _ in range(n_cases):
             cases.append((None, len(cases)))
     reqs_spec, reqs_model, owners = [], [], []
+    reqs_new, owners_new = [], []
     for f, path in cases:
         r = rng_for(seed, "c05", path)
         df = designs.gen_frame(r, n=r.randrange(12, 30))
@@ -224,6 +318,11 @@ def explore(tier, seed, res=None, replay=None):
                           "names": req["names"], "terms": terms})
         reqs_model.append(req)
         owners.append((case, obs, terms))
+        # the objects derived for new frames (own PRNG stream: the training stage is unchanged)
+        for ext, rq in prediction_requests(rng_for(seed, "c05", "new", path), formula, df, dm,
+                                           req["names"], 2 if tier == "quick" else 3, res):
+            reqs_new.append(rq)
+            owners_new.append(dict(case, **ext))
         if any(not t["name"].startswith("1|") or ":" in t["name"] for t in terms):
             res.nontrivial.add((formula, path))
         if len(res.samples) < 6:
@@ -266,6 +365,29 @@ def explore(tier, seed, res=None, replay=None):
         diffs = designs.compare(obs, mo)
         if diffs:
             res.mismatches.append({"case": case, "diff": diffs[:5]})
+    for case, rq, sp in zip(owners_new, reqs_new, ask(reqs_new)):
+        if "err" in sp:
+            res.count("prediction_spec_skip:" + sp["err"])
+            continue
+        for t, v in zip(rq["terms"], sp["terms"]):
+            if v.get("class_d30"):
+                res.count("prediction_term_skip:class-D30 (sum-coded grouping factor)")
+                continue
+            if "err" in v:
+                res.count("prediction_term_skip:" + v["err"] + ":" + str(v.get("what"))[:40])
+                continue
+            res.count("prediction_terms_judged" + ("_with_unseen_group" if v["any_unseen"] else ""))
+            if case["unseen"]:
+                res.nontrivial.add((case["formula"], case["seed_path"], "new", case["new"]))
+            if not v["blocks_ok"]:
+                res.failures.append({
+                    "case": case, "finding": None,
+                    "impl": {"term": t["name"], "groups": t["groups"], "new_frame": rq["_rows"],
+                             "slices": rq["_slices"], "x": t["x"], "z": t["z"]},
+                    "expected": "every row non-zero only in the slot of its own group (the appended "
+                                "slot for an unseen group), carrying e's values there",
+                    "why": f"block {t['name']} of group.evaluate_new_data(new frame) read through "
+                           "new[name]: block structure violated"})
     if replay is None or str(replay.get("seed_path", "")).startswith("rule"):
         coding_rule_stage(res, tier, seed, {k["id"] for k in known_findings("C05")})
     return res
